@@ -1741,8 +1741,13 @@ void mmd_assign_ambidextrous_tokens_in_block(mmd_engine * e, token * block, size
 /// consecutive characters should be interpreted as STRONG instead of EMPH
 /// \todo: Perhaps combining this with the routine when they are paired
 /// would improve performance?
-void pair_emphasis_tokens(token * t) {
+static void pair_emphasis_tokens_at_depth(token * t, unsigned short depth) {
 	token * closer;
+
+	// Prevent stack overflow with "dangerous" input causing extreme recursion
+	if (depth == kMaxPairRecursiveDepth) {
+		return;
+	}
 
 	while (t != NULL) {
 		if (t->mate != NULL) {
@@ -1790,13 +1795,18 @@ void pair_emphasis_tokens(token * t) {
 					break;
 
 				default:
-					pair_emphasis_tokens(t->child);
+					pair_emphasis_tokens_at_depth(t->child, depth + 1);
 					break;
 			}
 		}
 
 		t = t->next;
 	}
+}
+
+
+void pair_emphasis_tokens(token * t) {
+	pair_emphasis_tokens_at_depth(t, 0);
 }
 
 
